@@ -86,6 +86,20 @@ CHECKS = {
         text="TLC checks DeltaUnits/DeltaGroups/DeltaAlwaysAttributed for every 2-unit scenario x extra unit (known/new state, county, district) x policies x office kinds x five request lists; TLC-exported scenarios (600 in quick) and random larger elections are run twice through the real client for all three estimators; the trace spec recomputes both ledgers, requires the attributable groups to move by exactly the unit's votes (new group where needed) and every other row of every table to carry the same bit-level token.",
         note="Extra unit id well-formed for the unit type; common rows keep their order; F12 (bootstrap, extra unit in a state with no other row) is an open known finding.",
     ),
+    "C12": dict(
+        engine="controlb",
+        technique="TLA+ spec (ClientHistory.tla: call histories on fresh/used clients, seeded and process-global random streams, memo of digests) model-checked by TLC; every exported history executed on the real client (in-process and in new interpreters with different PYTHONHASHSEED) and validated by Trace_ClientHistory",
+        design_ref="DESIGN.md §5 C12, docs/controlb.md",
+        text="TLC checks Functional (equal arguments => equal digest) over all histories of <=3 calls x 2 argument tuples x 3 estimators x same/fresh client x national summary (6k states; 171k in thorough); six design switches (unseeded sigma = F2, unseeded split, unseeded bootstrap generator, model reuse, mutated defaults, set-order dependence) each reproduce a counterexample; 192 (2,608) exported histories are executed on the real client with the global numpy/random state perturbed by entropy between calls, and re-executed in new interpreters with PYTHONHASHSEED 0/1/12345/random; bit-level digests of every returned table are merged into traces and validated by the memo of the trace spec.",
+        note="The harness never seeds anything itself; digests are dtype-aware float.hex hashes including column names and order.",
+    ),
+    "C13": dict(
+        engine="controlb",
+        technique="TLA+ spec (ClientLoops.tla: the loop nest of get_estimates with the shared caches and in-place mutated frames as variables; per-cell provenance) model-checked by TLC; request sets drawn by TLC's simulator executed on the real client and validated by Trace_ClientLoops (memo keyed by cell, key-column sets)",
+        design_ref="DESIGN.md §5 C13, docs/controlb.md",
+        text="TLC checks ReadsOwn, NoStaleColumn, StableKeys, CellFunctional for all request sets (estimands x levels x aggregate lists in every order; 112k states, 2.4M in thorough); seven switches (F5, district merge key = F14, loop order, single cache slot, fixed alpha read, first-estimand column, merge without reporting) each reproduce a counterexample; 329 (3,076) request sets on elections with complete feeds are executed for all three estimators, 606 cells are compared bit-for-bit across every pair of requests containing them, and the key/category column sets are compared for 1-3 estimands (district offices included).",
+        note="'Same calibration split for every level' is a mechanism, not part of the statement: a per-alpha split seed is not flagged (documented).",
+    ),
     "C14": dict(
         engine="arith",
         technique="TLA+ spec (ConformalSplit.tla parts Gate and Split with float-tie candidate sets) model-checked by TLC on the alpha-permille x n grid; real minimum/fraction functions validated on the whole grid, real regressions on the boundary band, client end-to-end at n = need-1/need/need+1 via Trace_ConformalSplit",
